@@ -331,7 +331,7 @@ class Sampler2D(DaeObject):
         id = node.get('sid')
         surface = localscope.get(surfaceid)
         if surface is None or not isinstance(surface, Surface):
-            raise DaeBrokenRefError('Missing surface ' + surfaceid)
+            raise DaeBrokenRefError('Missing surface %s' % surfaceid)
         return Sampler2D(id, surface, minfilter, magfilter, xmlnode=node)
 
     def save(self):
@@ -386,6 +386,8 @@ class Map(DaeObject):
     def load(collada, localscope, node):
         samplerid = node.get('texture')
         texcoord = node.get('texcoord')
+        if samplerid is None:
+            raise DaeIncompleteError('Missing texture attribute in ' + node.tag)
         sampler = localscope.get(samplerid)
         # Check for the sampler ID as the texture ID because some exporters suck
         if sampler is None:
@@ -619,6 +621,8 @@ class Effect(DaeObject):
         Effect.getEffectParameters(collada, profilenode, localscope, params)
 
         tecnode = profilenode.find(collada.tag('technique'))
+        if tecnode is None:
+            raise DaeIncompleteError('No technique found in profile_COMMON')
 
         Effect.getEffectParameters(collada, tecnode, localscope, params)
 
@@ -690,15 +694,13 @@ class Effect(DaeObject):
         if vnode.tag == collada.tag('color'):
             try:
                 value = tuple([float(v) for v in vnode.text.split()])
-            except ValueError:
-                raise DaeMalformedError('Corrupted color definition in effect `{}`'.format(id))
-            except IndexError:
-                raise DaeMalformedError('Corrupted color definition in effect `{}`'.format(id))
+            except (AttributeError, ValueError):
+                raise DaeMalformedError('Corrupted color definition in effect parameter ' + node.tag)
         elif vnode.tag == collada.tag('float'):
             try:
                 value = float(vnode.text)
-            except ValueError:
-                raise DaeMalformedError('Corrupted float definition in effect ' + id)
+            except (TypeError, ValueError):
+                raise DaeMalformedError('Corrupted float definition in effect parameter ' + node.tag)
         elif vnode.tag == collada.tag('texture'):
             value = Map.load(collada, localscope, vnode)
         elif vnode.tag == collada.tag('param'):
